@@ -28,6 +28,12 @@ class _Break(Exception):
     pass
 
 
+class Spin(Exception):
+    """A loop head was reached twice with an identical, fully concrete environment: the loop cannot terminate."""
+    def __init__(self, node):
+        self.node = node
+
+
 class _Continue(Exception):
     pass
 
@@ -52,6 +58,7 @@ class MiniEval:
         self.consts = consts          # callable(name) -> value for module-level constants (or raises KeyError)
         self.calls = calls or {}      # textual callee name -> python callable(args) for whitelisted pure calls
         self.loop_cap = 64
+        self.resolver = None          # optional callable(evaluator, ast.Call) -> value | NotImplemented
 
     # ---- expressions ---------------------------------------------------------------------------------
     def ev(self, e: ast.AST):
@@ -123,6 +130,10 @@ class MiniEval:
             if name in self.calls:
                 kw = {k.arg: self.ev(k.value) for k in e.keywords if k.arg}
                 return self.calls[name](*[self.ev(a) for a in e.args], **kw)
+            if self.resolver is not None:
+                r = self.resolver(self, e)
+                if r is not NotImplemented:
+                    return r
             if isinstance(e.func, ast.Attribute) and e.func.attr in SAFE_METHODS:
                 recv = self.ev(e.func.value)
                 if isinstance(recv, SAFE_RECEIVERS):
@@ -265,8 +276,14 @@ class MiniEval:
         if isinstance(st, ast.While):
             n = 0
             broke = False
+            seen_envs = set()
             while self.truth(self.ev(st.test)):
                 n += 1
+                snap = self.snapshot()
+                if snap is not None:
+                    if snap in seen_envs:
+                        raise Spin(st)
+                    seen_envs.add(snap)
                 if n > self.loop_cap:
                     raise Unsupported('loop bound exceeded')
                 try:
@@ -317,6 +334,20 @@ class MiniEval:
             self.env[st.name] = Sym('function ' + st.name)
             return
         raise Unsupported(f'statement {type(st).__name__}')
+
+    def snapshot(self):
+        """Hashable image of the environment if every value is concrete (None / bool / int / str / tuples of those)."""
+        items = []
+        for k, v in sorted(self.env.items()):
+            if isinstance(v, Sym):
+                items.append((k, ('sym', v.name)))
+            elif v is None or isinstance(v, (bool, int, str)):
+                items.append((k, v))
+            elif isinstance(v, tuple) and all(x is None or isinstance(x, (bool, int, str)) for x in v):
+                items.append((k, v))
+            else:
+                return None
+        return tuple(items)
 
     def assign(self, t, v):
         if isinstance(t, ast.Name):
